@@ -214,7 +214,14 @@ pub fn runes(rng: &mut StdRng, n: usize, out: &mut Vec<Value>) {
   vals.extend([Rune::RESERVED, Rune::RESERVED - 1, Rune::RESERVED + 1]);
   for v in vals {
     let rune = Rune(v);
-    let name = rune.to_string();
+    // printing is code under test too: a panic is recorded, not suffered
+    let name = match catch(move || rune.to_string()) {
+      Ok(s) => s,
+      Err(_) => {
+        out.push(json!({"f": "rune", "n": limbs(v), "printPanic": true}));
+        continue;
+      }
+    };
     let letters: Vec<u32> = name.bytes().map(|b| (b - b'A') as u32).collect();
     let name2 = name.clone();
     let back = match catch(move || name2.parse::<Rune>()) {
@@ -229,7 +236,13 @@ pub fn runes(rng: &mut StdRng, n: usize, out: &mut Vec<Value>) {
       _ => 1 << rng.gen_range(0..32),
     };
     let spaced = SpacedRune { rune, spacers: mask };
-    let text = spaced.to_string();
+    let text = match catch(move || spaced.to_string()) {
+      Ok(s) => s,
+      Err(_) => {
+        out.push(json!({"f": "rune", "n": limbs(v), "printPanic": true}));
+        continue;
+      }
+    };
     let tokens: Vec<u32> = text
       .chars()
       .map(|c| if c == '•' { 100 } else { (c as u8 - b'A') as u32 })
